@@ -25,7 +25,8 @@ def parseJ : String → Option JKind
   | "jmp" => some .jmp | "jz" => some .jz | "call" => some .call | "jecxz" => some .jecxz | "loop" => some .loop | _ => none
 def parseM : String → Option MKind
   | "lea" => some .lea | "mov" => some .mov | "addi8" => some .addi8 | "movi32" => some .movi32 | "cmpi16" => some .cmpi16
-  | "ldeax" => some .ldeax | "steax" => some .steax | "ldrax" => some .ldrax | _ => none
+  | "ldeax" => some .ldeax | "steax" => some .steax | "ldrax" => some .ldrax
+  | "fsmov" => some .fsmov | "gsldeax" => some .gsldeax | "fsaddi8" => some .fsaddi8 | _ => none
 def parseA : String → Option AKind
   | "b" => some .b | "bl" => some .bl | "bcond" => some .bcond | "cbz" => some .cbz | "tbz" => some .tbz
   | "adr" => some .adr | "adrp" => some .adrp | "ldr" => some .ldr | _ => none
